@@ -89,7 +89,8 @@ def gen_template(rng, features: Dict[str, int]):
         be = Entity(tmpl, keys={'classname': 'func_brush', 'targetname': rng.choice(names), 'origin': Vec(8, 8, 8)},
                     solids=[gen_vmf.gen_solid(rng, tmpl, features) for _ in range(rng.randint(1, 2))])
         for s in be.solids:
-            s.hidden = False
+            # a brush of a visible entity can be hidden on its own in Hammer; it must stay hidden after the collapse
+            s.hidden = rng.random() < 0.3
         tmpl.add_ent(be)
         features['brush_ent'] = features.get('brush_ent', 0) + 1
     # entities whose keyvalues have a geometric / referential FGD type (fixed up by Instance.fixup_key)
@@ -262,7 +263,10 @@ class Collapser:
                 'allowed': list(f.disp_allowed_vert) if f.is_disp else None}
 
     def snap_solid(self, s) -> list:
-        return [self.snap_side(f) for f in s.sides]
+        sides = [self.snap_side(f) for f in s.sides]
+        if sides:
+            sides[0]['solid_hidden'] = bool(s.hidden)
+        return sides
 
     def snap_ent(self, e) -> dict:
         return {'keys': {k: e[k] for k in e}, 'outputs': [(o.output, o.target, o.input, o.params) for o in e.outputs],
@@ -344,6 +348,12 @@ class Collapser:
                 self.check_solid(ss, ns, R, pos, label + ' brush')
                 if self.bad:
                     return
+                if ss and ss[0].get('solid_hidden') and not ns.hidden:
+                    self.fail(f'{label}: a brush that is individually hidden in the template is visible in the collapsed copy',
+                              'hidden-brush-became-visible')
+                    return
+                if ss and ss[0].get('solid_hidden'):
+                    self.run.count('hidden_entity_brushes_checked')
             if len(snap['solids']) != len(new.solids):
                 self.fail(f'{label}: solids not copied', 'brush-count')
                 return
@@ -668,7 +678,7 @@ def main(run, shard=(0, 1)) -> None:
             nested_names(run, sub_rng(run.seed, 'nested', i), i)
     probe.report(run)
     probe.check_reached(run)
-    run.require('collapses', 'nested_name_maps', 'nested_copies_checked', 'nested_fixup_values_checked', 'collapses_keeping_visgroups', 'collapsed_copies_mutated', 'typed_positions_checked', 'typed_directions_checked', 'typed_axes_checked', 'typed_sidelists_checked', 'typed_nodeids_checked', 'typed_name_or_class_checked', 'typed_pitch_checked', 'plane_points_checked', 'texture_projections_checked', 'origins_checked', 'orientations_checked',
+    run.require('collapses', 'hidden_entity_brushes_checked', 'nested_name_maps', 'nested_copies_checked', 'nested_fixup_values_checked', 'collapses_keeping_visgroups', 'collapsed_copies_mutated', 'typed_positions_checked', 'typed_directions_checked', 'typed_axes_checked', 'typed_sidelists_checked', 'typed_nodeids_checked', 'typed_name_or_class_checked', 'typed_pitch_checked', 'plane_points_checked', 'texture_projections_checked', 'origins_checked', 'orientations_checked',
                 'names_checked', 'substitutions_checked', 'template_snapshots_compared', 'collapse_all_runs', 'displacements_checked')
 
 
